@@ -159,7 +159,7 @@ def run(ctx):
         ctx.sample({"base": [core.cond_text((b, a), names) for _, b, a in c["base"]], "weakly": c["weakly"],
                     "answers": {k: (v[1] if v[0] == "ok" else v[:2]) for k, v in list(res.items())[:4]}})
         for f in compare(c, res):
-            ctx.failures.append(shrink(f))
+            ctx.fail(f, shrink)
     # large bases: rc2 vs z3 (+ one more engine)
     files = rel.shipped_pairs(ctx.rng, 8 if quick else 120, max_atoms=20 if quick else 50)
     m, cap = (5, 5) if quick else (15, 20)
